@@ -363,13 +363,19 @@ func c08Constants() []octosql.Value {
 		octosql.NewString("a"), octosql.NewString("12"), octosql.NewString("x"), octosql.NewString(""), f64(0x3FF8000000000000),
 		octosql.NewDuration(time.Second), octosql.NewList([]octosql.Value{one, two}), octosql.NewList([]octosql.Value{one, null}),
 		octosql.NewList(nil), octosql.NewTuple([]octosql.Value{one, octosql.NewString("a")}),
+		// not denotable in SQL: Value.Type() of a list of differently shaped structs (known finding const-typeof-shape-mismatch)
+		octosql.NewList([]octosql.Value{octosql.NewStruct([]octosql.Value{one, two}), octosql.NewStruct([]octosql.Value{null, one})}),
 	}
 }
 
-func c08Gen(g *Gen, tier string, w *bufio.Writer) {
-	nenv, perEnv, nrows, nagg, nqry := 36, 70, 4, 500, 120
+func c08Gen(g *Gen, tier string, out *bufio.Writer) {
+	// the lines are collected first: the (slow) whole-query lines are spread evenly over the output so that bin/check's
+	// contiguous chunks each get their share
+	var lines []string
+	w := &c08Lines{lines: &lines}
+	nenv, perEnv, nrows, nagg, nqry := 36, 70, 4, 500, 64
 	if tier == "thorough" {
-		nenv, perEnv, nrows, nagg, nqry = 260, 110, 6, 6000, 2500
+		nenv, perEnv, nrows, nagg, nqry = 260, 110, 6, 6000, 1600
 	}
 	var names []string
 	for n := range c08Funcs() {
@@ -445,7 +451,20 @@ func c08Gen(g *Gen, tier string, w *bufio.Writer) {
 		w.WriteString(sb.String() + "\n")
 	}
 	// whole queries through the CLI (oracle only)
-	for i := 0; i < nqry; i++ {
-		w.WriteString(c08GenQryLine(g) + "\n")
+	every := len(lines)/nqry + 1
+	q := 0
+	for i, l := range lines {
+		out.WriteString(l)
+		if i%every == every-1 && q < nqry {
+			out.WriteString(c08GenQryLine(g) + "\n")
+			q++
+		}
+	}
+	for ; q < nqry; q++ {
+		out.WriteString(c08GenQryLine(g) + "\n")
 	}
 }
+
+type c08Lines struct{ lines *[]string }
+
+func (c *c08Lines) WriteString(s string) { *c.lines = append(*c.lines, s) }
